@@ -40,6 +40,7 @@ class VUnit:
     self.name = self.u["name"]
     self.rel = "verus/" + os.path.basename(path)
     self.obligations = []
+    self.sources = sorted(set([self.u["source"]] + [it["source"] for it in self.u["items"] if it.get("source")]))
     for it in self.u["items"]:
       ob = it.get("obligation")
       if ob:
@@ -104,7 +105,7 @@ def _match_brace(text, open_idx):
 
 def _impl_ranges(src, header):
   out = []
-  for m in re.finditer(r"^" + re.escape(header) + r"\s*\{", src, re.M):
+  for m in re.finditer(r"^" + re.escape(header) + r"(?:\s+where\b[^{]*)?\s*\{", src, re.M):
     o = src.index("{", m.start() + len(header))
     out.append((o, _match_brace(src, o)))
   return out
@@ -154,6 +155,16 @@ def extract_struct(src, name, where):
   return head, src[o + 1:c]
 
 
+def extract_enum(src, name, where):
+  ms = list(re.finditer(r"^[ \t]*(?:pub(?:\([a-z]+\))?\s+)?enum\s+%s\b[^;{]*\{" % re.escape(name), src, re.M))
+  if len(ms) != 1:
+    raise Structural("anchor-lost %s: enum %s found %d times" % (where, name, len(ms)))
+  m = ms[0]
+  o = src.index("{", m.start())
+  c = _match_brace(src, o)
+  return src[m.start():c + 1].strip()
+
+
 def extract_const(src, name, where):
   ms = list(re.finditer(r"^[ \t]*((?:pub(?:\([a-z]+\))?\s+)?const\s+%s\s*:[^;]*;)" % re.escape(name), src, re.M))
   if len(ms) != 1:
@@ -191,10 +202,16 @@ def _struct_fields(body):
 def generate(vu, repo_root):
   """Returns (text, fn_ranges {fn name: (first line, last line)}, diffs)."""
   u = vu.u
-  path = os.path.join(repo_root, u["source"])
-  if not os.path.exists(path):
-    raise Structural("anchor-lost file %s" % u["source"])
-  src = open(path).read()
+  srcs = {}
+
+  def load_src(rel):
+    if rel not in srcs:
+      path = os.path.join(repo_root, rel)
+      if not os.path.exists(path):
+        raise Structural("anchor-lost file %s" % rel)
+      srcs[rel] = open(path).read()
+    return srcs[rel]
+
   diffs = []
   out = []
   out.append("// GENERATED by engine/vextract.py from %s -- do not edit" % u["source"])
@@ -232,14 +249,25 @@ def generate(vu, repo_root):
   for key, items in groups:
     if key == "__item__":
       it = items[0]
+      isrc = it.get("source", u["source"])
+      src = load_src(isrc)
+      if it["kind"] == "enum":
+        txt = extract_enum(src, it["name"], isrc)
+        txt = re.sub(r"^pub\(crate\)\s+", "pub ", txt)
+        if not txt.startswith("pub "):
+          txt = "pub " + txt
+        txt = re.sub(r"//[^\n]*", "", txt)
+        out.append(rw(txt, "enum " + it["name"]))
+        diffs.append("enum %s (%s): copied verbatim (comments and derive attributes dropped)" % (it["name"], isrc))
+        continue
       if it["kind"] == "struct":
-        head, body = extract_struct(src, it["name"], u["source"])
+        head, body = extract_struct(src, it["name"], isrc)
         fields = _struct_fields(body)
         keep = it.get("keep")
         kept = [(n, t) for (n, t) in fields if keep is None or n in keep]
         missing = [k for k in (keep or []) if k not in [n for n, _ in fields]]
         if missing:
-          raise Structural("anchor-lost %s: struct %s has no field(s) %s" % (u["source"], it["name"], missing))
+          raise Structural("anchor-lost %s: struct %s has no field(s) %s" % (isrc, it["name"], missing))
         dropped = [n for (n, _) in fields if keep is not None and n not in keep]
         head = re.sub(r"^pub(\([a-z]+\))?\s+", "", head)
         out.append("pub " + rw(head, "struct " + it["name"]) + " {")
@@ -251,12 +279,19 @@ def generate(vu, repo_root):
         out.append("}")
         diffs.append("struct %s: fields made pub; dropped fields: %s" % (it["name"], ", ".join(dropped) or "none"))
       elif it["kind"] == "const":
-        out.append(rw(re.sub(r"^pub\(crate\)", "pub", extract_const(src, it["name"], u["source"])), "const " + it["name"]))
+        out.append(rw(re.sub(r"^pub\(crate\)", "pub", extract_const(src, it["name"], isrc)), "const " + it["name"]))
       continue
     if key is not None:
-      out.append(rw(key, "impl header") + " {")
+      impl_as = items[0].get("impl_as")
+      if impl_as:
+        out.append(impl_as + " {")
+        diffs.append("impl header `%s` emitted as `%s` (Verus takes no requires/ensures on trait impls; the bodies are unchanged)" % (key, impl_as))
+      else:
+        out.append(rw(key, "impl header") + " {")
     for it in items:
-      sig, body, line_no = extract_fn(src, it["name"], key, u["source"])
+      isrc = it.get("source", u["source"])
+      src = load_src(isrc)
+      sig, body, line_no = extract_fn(src, it["name"], key, isrc)
       sig = re.sub(r"^pub\(crate\)\s+", "pub ", sig)
       sig = re.sub(r"^pub\(super\)\s+", "pub ", sig)
       if not sig.startswith("pub "):
@@ -267,20 +302,28 @@ def generate(vu, repo_root):
       m = re.search(r"->\s*(.+)$", sig, re.S)
       if m:
         sig = sig[:m.start()] + "-> (%s: %s)" % (rn, m.group(1).strip())
+      olines = body.split("\n")  # anchors are matched against the ORIGINAL source lines
       body = rw(body, "fn " + it["name"])
       blines = body.split("\n")
+      if len(blines) != len(olines):
+        raise Structural("rewrite changed the line count of fn %s" % it["name"])
       for sp in it.get("splices", []):
         anchor = sp.get("after") or sp.get("before")
-        idx = [k for k, l in enumerate(blines) if l.strip() == anchor]
+        idx = [k for k, l in enumerate(olines) if l.strip() == anchor]
+        if "nth" in sp and len(idx) == sp.get("of", len(idx)) and sp["nth"] < len(idx):
+          idx = [idx[sp["nth"]]]
         if len(idx) != 1:
-          raise Structural("anchor-lost %s::%s: line `%s` found %d times" % (u["source"], it["name"], anchor, len(idx)))
+          raise Structural("anchor-lost %s::%s: line `%s` found %d times" % (isrc, it["name"], anchor, len(idx)))
         ind = blines[idx[0]][: len(blines[idx[0]]) - len(blines[idx[0]].lstrip())]
         at = idx[0] + 1 if sp.get("after") else idx[0]
         blines[at:at] = [ind + x for x in sp["insert"]]
+        olines[at:at] = ["" for x in sp["insert"]]
       for lp in it.get("loops", []):
-        idx = [k for k, l in enumerate(blines) if l.strip() == lp["at"]]
+        idx = [k for k, l in enumerate(olines) if l.strip() == lp["at"]]
+        if "nth" in lp and len(idx) == lp.get("of", len(idx)) and lp["nth"] < len(idx):
+          idx = [idx[lp["nth"]]]
         if len(idx) != 1:
-          raise Structural("anchor-lost %s::%s: loop header `%s` found %d times" % (u["source"], it["name"], lp["at"], len(idx)))
+          raise Structural("anchor-lost %s::%s: loop header `%s` found %d times" % (isrc, it["name"], lp["at"], len(idx)))
         k = idx[0]
         l = blines[k]
         if not l.rstrip().endswith("{"):
@@ -288,6 +331,7 @@ def generate(vu, repo_root):
         ind = l[: len(l) - len(l.lstrip())]
         blines[k] = l.rstrip()[:-1].rstrip()
         blines[k + 1:k + 1] = [ind + "  " + c for c in lp["clauses"]] + [ind + "{"]
+        olines[k + 1:k + 1] = ["" for c in lp["clauses"]] + [""]
       first = cur_line()
       for a in it.get("attrs", []):
         out.append("  " + a)
@@ -309,7 +353,7 @@ def generate(vu, repo_root):
         out += ["  " + l for l in blines]
       fn_ranges[it["name"]] = (first, cur_line() - 1)
       diffs.append("fn %s (%s:%d): copied verbatim; +%d requires, +%d ensures, %d spliced proof line(s), %d loop contract(s)" % (
-        it["name"], u["source"], line_no, len(it.get("requires", [])), len(it.get("ensures", [])),
+        it["name"], isrc, line_no, len(it.get("requires", [])), len(it.get("ensures", [])),
         sum(len(s["insert"]) for s in it.get("splices", [])), len(it.get("loops", []))))
       # vacuity control: the same function with `ensures false` must be REJECTED
       if it.get("obligation") and not it.get("external_body"):
@@ -339,7 +383,7 @@ def run_unit(vu, repo_root, gendir, logdir):
   open(path, "w").write(text)
   # keep a copy of the generated text for the reader
   t0 = time.time()
-  cmd = ["verus", path, "--output-json", "--time", "--multiple-errors", "50"]
+  cmd = ["verus", path, "--output-json", "--time", "--multiple-errors", "50", "--triggers-mode", "silent"] + vu.u.get("verus_flags", [])
   try:
     p = subprocess.run(cmd, stdout=subprocess.PIPE, stderr=subprocess.PIPE, text=True, timeout=900, cwd=gendir)
   except subprocess.TimeoutExpired:
@@ -375,7 +419,12 @@ def run_unit(vu, repo_root, gendir, logdir):
           break
       if hit:
         break
-    failed.setdefault(hit or "?", []).append({"description": first[len("error: "):] if first.startswith("error: ") else first,
+    desc = first[len("error: "):] if first.startswith("error: ") else first
+    # name the failing clause: the first quoted source line of the diagnostic
+    mcl = re.search(r"^\s*\d+ \|\s*(.*?)\s*$", b, re.M)
+    if mcl and mcl.group(1):
+      desc += ": " + mcl.group(1).rstrip(",")
+    failed.setdefault(hit or "?", []).append({"description": desc,
                                                "location": "%s.rs:%s" % (vu.name, locs[0] if locs else "?"),
                                                "detail": b[:1200]})
   info = {"verified": vr.get("verified"), "errors": vr.get("errors"), "wall_s": round(wall, 2),
